@@ -13,7 +13,7 @@ import (
 func init() {
 	register(&propDef{
 		ID:          "C19",
-		Explanation: "Decides, for package cmd/templ/generatecmd/sse (every function, go/cfg + type information): R1 no send on a registry channel can follow its close — either the channel type stored in the client registry is never closed and every send on it is one arm of a select whose other arm receives a done signal, or send and close both hold the registry mutex in the same goroutine (a send inside a `go` closure does not hold the caller's lock); R2 while the broadcaster holds the registry mutex it performs no blocking channel operation itself; R3 registration stores under the mutex and removal is deferred, under the mutex; R4 the broadcast loop addresses every registered client (no break/continue/return filter); R2 also covers every other function that takes the registry mutex and deferred calls that run before a deferred Unlock (sync.WaitGroup.Wait, sync.Cond.Wait, time.Sleep, channel operations outside a select with default); R5 the key under which a client is registered comes from a never-repeating source (an atomic add of a positive constant on a field that nothing else writes, a field only ever incremented, or a freshly allocated pointer/channel) — a key computed from the registry's current size is reused after a disconnect and replaces a connected client's entry. R6 the proxy's broadcast entry point hands every event to the hub (Send dominates every exit); R7 on the event-stream route the proxy writes or flushes nothing before the hub's handler runs (the hub registers the client before its first flush). R8 no http.Server of the generate command sets a WriteTimeout and no handler is wrapped in http.TimeoutHandler (the event stream is one response that must stay writable for the whole session). NOT decided: delivery under all interleavings, liveness of slow readers. R9 no value holding a sync primitive by value is copied in package sse (a method with a value receiver locks a copy of the registry's mutex). R10 every return leaves locks released; R11 closures run later read no loop state. R3 also: locksets are taken through lock wrappers (withLock(func())) and a removal inside `defer s.withLock(func(){…})` counts as deferred; a helper that only copies the registry into a slice it returns must hold the mutex itself or at every call site, and the broadcast rules then apply to the loop over the copy. R17 in the stream handler the client is stored in the registry before the first write or flush to the response (helpers summarised); R18 a type of the proxy or the sse package that embeds http.ResponseWriter also has a Flush method.",
+		Explanation: "Decides, for package cmd/templ/generatecmd/sse (every function, go/cfg + type information): R1 no send on a registry channel can follow its close — either the channel type stored in the client registry is never closed and every send on it is one arm of a select whose other arm receives a done signal, or send and close both hold the registry mutex in the same goroutine (a send inside a `go` closure does not hold the caller's lock); R2 while the broadcaster holds the registry mutex it performs no blocking channel operation itself; R3 registration stores under the mutex and removal is deferred, under the mutex; R4 the broadcast loop addresses every registered client (no break/continue/return filter); R2 also covers every other function that takes the registry mutex and deferred calls that run before a deferred Unlock (sync.WaitGroup.Wait, sync.Cond.Wait, time.Sleep, channel operations outside a select with default); R5 the key under which a client is registered comes from a never-repeating source (an atomic add of a positive constant on a field that nothing else writes, a field only ever incremented, or a freshly allocated pointer/channel) — a key computed from the registry's current size is reused after a disconnect and replaces a connected client's entry. R6 the proxy's broadcast entry point hands every event to the hub (Send dominates every exit); R7 on the event-stream route the proxy writes or flushes nothing before the hub's handler runs (the hub registers the client before its first flush). R8 no http.Server of the generate command sets a WriteTimeout and no handler is wrapped in http.TimeoutHandler (the event stream is one response that must stay writable for the whole session). NOT decided: delivery under all interleavings, liveness of slow readers. R9 no value holding a sync primitive by value is copied in package sse (a method with a value receiver locks a copy of the registry's mutex). R10 every return leaves locks released; R11 closures run later read no loop state. R3 also: locksets are taken through lock wrappers (withLock(func())) and a removal inside `defer s.withLock(func(){…})` counts as deferred; a helper that only copies the registry into a slice it returns must hold the mutex itself or at every call site, and the broadcast rules then apply to the loop over the copy. R17 in the stream handler the client is stored in the registry before the first write or flush to the response (helpers summarised); R18 a type of the proxy or the sse package that embeds http.ResponseWriter also has a Flush method. R3 also: the key handed to delete is a local or parameter that holds this client's key (not a field or call evaluated when the client leaves); the removal may be a closure the registering function returns, when every caller defers it.",
 		Assumptions: []string{"a send on a closed channel panics; a send in a select with a ready done arm cannot block forever", "net/http cancels r.Context() when ServeHTTP returns"},
 		Trusted:     []string{"go/types", "x/tools go/packages, go/cfg"},
 		Run:         runC19,
@@ -575,6 +575,21 @@ func runC19(c *Ctx) {
 					held := normHeld(heldIn(p, b, n), true)
 					c.check(held[muKeyOf(n.Args[0])], "C19.R3", funcKey(p, b.Decl)+"|unregister-under-lock", c.pos(n.Pos()), "client removed under the mutex",
 						"a client is removed from the registry map without holding the registry mutex exclusively "+heldList(held)+" (a read lock does not exclude other writers): two clients disconnecting at the same moment write the map concurrently — fatal error: concurrent map writes, which kills the watch process")
+					// the key that is removed is the one this client was registered under: a local (or parameter) that holds
+					// it — not a value read again from shared state when the client leaves (a counter that later clients have
+					// advanced names THEIR entry)
+					{
+						kx := ast.Unparen(n.Args[1])
+						okKey := false
+						why := types.ExprString(kx)
+						if kid, isID := kx.(*ast.Ident); isID {
+							if v, isVar := info.ObjectOf(kid).(*types.Var); isVar && !v.IsField() && v.Parent() != p.Types.Scope() {
+								okKey = true
+							}
+						}
+						c.check(okKey, "C19.R3", funcKey(p, b.Decl)+"|removes-its-own-key", c.pos(n.Pos()), "the removal names the entry by a local that holds this client's key",
+							fmt.Sprintf("the client is removed from the registry under %s, which is read from shared state at the moment the client leaves and not the key kept from its registration: when a later client has registered in between, the older client's clean-up removes the NEWER client's entry — that client is connected and never receives a reload again, while the dead entry stays", why))
+					}
 					// must be in a deferred closure of the handler
 					deferred := false
 					for _, dc := range deferredCallsDeep(p, b.Decl.Body) {
@@ -606,6 +621,51 @@ func runC19(c *Ctx) {
 							})
 						}
 						deferred = nsites > 0 && all
+					}
+					// … or the removal is a closure the registering function hands back, and every caller defers it:
+					// events, unregister := s.register(); defer unregister()
+					if !deferred && b.Lit != nil {
+						ri := -1
+						ast.Inspect(b.Decl.Body, func(m ast.Node) bool {
+							if ret, ok := m.(*ast.ReturnStmt); ok {
+								for i, r := range ret.Results {
+									if ast.Unparen(r) == ast.Expr(b.Lit) {
+										ri = i
+									}
+								}
+							}
+							return true
+						})
+						if ri >= 0 {
+							nsites, all := 0, true
+							for _, ob := range bodies {
+								directNodes(ob.Body, func(m ast.Node) bool {
+									as, ok := m.(*ast.AssignStmt)
+									if !ok || len(as.Rhs) != 1 || ri >= len(as.Lhs) {
+										return true
+									}
+									call, ok := ast.Unparen(as.Rhs[0]).(*ast.CallExpr)
+									if !ok || types.Object(calleeOf(info, call)) != info.Defs[b.Decl.Name] {
+										return true
+									}
+									nsites++
+									vid, ok := as.Lhs[ri].(*ast.Ident)
+									isDef := false
+									if ok {
+										for _, dc := range deferredCalls(ob.Body) {
+											if fid, isID := ast.Unparen(dc.Fun).(*ast.Ident); isID && info.ObjectOf(fid) == info.ObjectOf(vid) && len(dc.Args) == 0 {
+												isDef = true
+											}
+										}
+									}
+									if !isDef {
+										all = false
+									}
+									return true
+								})
+							}
+							deferred = nsites > 0 && all
+						}
 					}
 					c.check(deferred, "C19.R3", funcKey(p, b.Decl)+"|unregister-deferred", c.pos(n.Pos()), "removal runs in a defer, on every exit of the handler",
 						"the client is not removed in a defer: an early return (write error) leaves a dead client in the registry, and every later broadcast leaks a goroutine on it")
